@@ -1,85 +1,67 @@
 import MJ.Proofs.MetaClosure
 /-! The simulation between run-time name resolution (`exec`) and the analysis (`walk`, either
-mode): whatever a statement asks the context for is reported afterwards (or is the name of a
-self-referential macro, or is promised by an enclosing recursive loop / a block of the
-template), and the analysis' notion of "assigned" stays justified (C18). -/
+mode): whatever a statement asks the context for is reported afterwards (or is promised by an
+enclosing recursive loop / a block of the template), and the analysis' notion of "assigned"
+stays justified (C18). -/
 namespace MJ.Meta
 
 /-- result `r` of executing a piece of code from frame `top` over `below`, against the tracker
-`st'` after walking the same piece; `ex` = exception names of this piece, `P` = names that
-an enclosing construct accounts for (the report of an enclosing recursive loop, the free names
-of the blocks, self-referential macros elsewhere), `Q` ⊆ `P` = those of them that may be read
-although a frame binds them (block bodies and macro bodies run in other frames) -/
+`st'` after walking the same piece; `P` = names that an enclosing construct accounts for (the
+report of an enclosing recursive loop, the free names of the blocks), `Q` ⊆ `P` = those of
+them that may be read although a frame binds them (block bodies run in other frames) -/
 structure Sim (top : Frame) (below : List Frame) (r : Res) (st' : St)
-    (ex : List String) (P Q : String → Prop) : Prop where
+    (P Q : String → Prop) : Prop where
   inv : r.stopped = false → Inv r.top below st'
   grow : ∀ x ∈ top, x ∈ r.top
-  reads : ∀ x ∈ r.reads, st'.reported x ∨ x ∈ ex ∨ P x
-  unb : ∀ x ∈ r.reads, bound top below x = false ∨ x ∈ ex ∨ Q x
+  reads : ∀ x ∈ r.reads, st'.reported x ∨ P x
+  unb : ∀ x ∈ r.reads, bound top below x = false ∨ Q x
 
 section
 variable {top : Frame} {below : List Frame} {P Q : String → Prop}
 
-theorem Sim.nil {st : St} (h : Inv top below st) (ex : List String) (P Q : String → Prop) :
-    Sim top below ⟨top, [], false⟩ st ex P Q :=
+theorem Sim.nil {st : St} (h : Inv top below st) (P Q : String → Prop) :
+    Sim top below ⟨top, [], false, false⟩ st P Q :=
   ⟨fun _ => h, fun _ hx => hx, fun x hx => (by cases hx), fun x hx => (by cases hx)⟩
 
-theorem Sim.ex_mono {r : Res} {st : St} {ex ex' : List String} {P' Q' : String → Prop}
-    (h : Sim top below r st ex P Q) (he : ∀ x ∈ ex, x ∈ ex') (hp : ∀ x, P x → P' x)
-    (hq : ∀ x, Q x → Q' x) : Sim top below r st ex' P' Q' :=
-  ⟨h.inv, h.grow, fun x hx => (h.reads x hx).imp id (Or.imp (he x) (hp x)),
-    fun x hx => (h.unb x hx).imp id (Or.imp (he x) (hq x))⟩
+theorem Sim.mono {r : Res} {st : St} {P' Q' : String → Prop}
+    (h : Sim top below r st P Q) (hp : ∀ x, P x → P' x) (hq : ∀ x, Q x → Q' x) :
+    Sim top below r st P' Q' :=
+  ⟨h.inv, h.grow, fun x hx => (h.reads x hx).imp id (hp x), fun x hx => (h.unb x hx).imp id (hq x)⟩
 
 /-- sequencing; the second part only runs when the first did not stop -/
-theorem Sim.seq {r1 r2 : Res} {st1 st2 : St} {ex1 ex2 : List String}
-    (h1 : Sim top below r1 st1 ex1 P Q) (h2 : Sim r1.top below r2 st2 ex2 P Q)
+theorem Sim.seq {r1 r2 : Res} {st1 st2 : St}
+    (h1 : Sim top below r1 st1 P Q) (h2 : Sim r1.top below r2 st2 P Q)
     (hrep : ∀ x, st1.reported x → st2.reported x) :
-    Sim top below ⟨r2.top, r1.reads ++ r2.reads, r2.stopped⟩ st2 (ex1 ++ ex2) P Q := by
+    Sim top below ⟨r2.top, r1.reads ++ r2.reads, r2.stopped, r2.aborted⟩ st2 P Q := by
   refine ⟨h2.inv, fun x hx => h2.grow x (h1.grow x hx), ?_, ?_⟩
   · intro x hx
-    simp only [List.mem_append] at hx ⊢
+    simp only [List.mem_append] at hx
     rcases hx with hx | hx
-    · rcases h1.reads x hx with h | h | h
-      · exact Or.inl (hrep x h)
-      · exact Or.inr (Or.inl (Or.inl h))
-      · exact Or.inr (Or.inr h)
-    · rcases h2.reads x hx with h | h | h
-      · exact Or.inl h
-      · exact Or.inr (Or.inl (Or.inr h))
-      · exact Or.inr (Or.inr h)
+    · exact (h1.reads x hx).imp (hrep x) id
+    · exact h2.reads x hx
   · intro x hx
-    simp only [List.mem_append] at hx ⊢
+    simp only [List.mem_append] at hx
     rcases hx with hx | hx
-    · rcases h1.unb x hx with h | h | h
-      · exact Or.inl h
-      · exact Or.inr (Or.inl (Or.inl h))
-      · exact Or.inr (Or.inr h)
-    · rcases h2.unb x hx with h | h | h
-      · exact Or.inl (unbound_anti h1.grow h)
-      · exact Or.inr (Or.inl (Or.inr h))
-      · exact Or.inr (Or.inr h)
+    · exact h1.unb x hx
+    · exact (h2.unb x hx).imp (unbound_anti h1.grow) id
 
-/-- the first part stopped: the tracker walks on, the execution does not -/
-theorem Sim.stop {r1 : Res} {st1 st2 : St} {ex1 : List String} (ex2 : List String)
-    (h1 : Sim top below r1 st1 ex1 P Q) (hrep : ∀ x, st1.reported x → st2.reported x) :
-    Sim top below ⟨r1.top, r1.reads, true⟩ st2 (ex1 ++ ex2) P Q := by
-  refine ⟨fun h => (by cases h), h1.grow, ?_, ?_⟩
+/-- control does not go on after the piece (break/continue, or a failure after some of its
+look-ups): the tracker walks on, the execution does not -/
+theorem Sim.cut {r1 r' : Res} {st1 st2 : St} (h1 : Sim top below r1 st1 P Q)
+    (hrep : ∀ x, st1.reported x → st2.reported x) (htop : r'.top = r1.top)
+    (hsub : ∀ x ∈ r'.reads, x ∈ r1.reads) (hst : r'.stopped = true) :
+    Sim top below r' st2 P Q := by
+  refine ⟨fun h => (by rw [hst] at h; cases h), fun x hx => htop ▸ h1.grow x hx, ?_, ?_⟩
   · intro x hx
-    rcases h1.reads x hx with h | h | h
-    · exact Or.inl (hrep x h)
-    · exact Or.inr (Or.inl (List.mem_append_left _ h))
-    · exact Or.inr (Or.inr h)
+    exact (h1.reads x (hsub x hx)).imp (hrep x) id
   · intro x hx
-    rcases h1.unb x hx with h | h | h
-    · exact Or.inl h
-    · exact Or.inr (Or.inl (List.mem_append_left _ h))
-    · exact Or.inr (Or.inr h)
+    exact h1.unb x (hsub x hx)
 
 /-- look-ups in front of a piece of code that are known to be fine -/
-theorem Sim.prepend {r : Res} {st : St} {ex : List String} (r0 : List String)
-    (h : Sim top below r st ex P Q)
-    (h0 : ∀ x ∈ r0, (st.reported x ∨ x ∈ ex ∨ P x) ∧ (bound top below x = false ∨ x ∈ ex ∨ Q x)) :
-    Sim top below ⟨r.top, r0 ++ r.reads, r.stopped⟩ st ex P Q := by
+theorem Sim.prepend {r : Res} {st : St} (r0 : List String)
+    (h : Sim top below r st P Q)
+    (h0 : ∀ x ∈ r0, (st.reported x ∨ P x) ∧ (bound top below x = false ∨ Q x)) :
+    Sim top below ⟨r.top, r0 ++ r.reads, r.stopped, r.aborted⟩ st P Q := by
   refine ⟨h.inv, h.grow, ?_, ?_⟩
   · intro x hx
     simp only [List.mem_append] at hx
@@ -93,52 +75,58 @@ theorem Sim.prepend {r : Res} {st : St} {ex : List String} (r0 : List String)
     · exact h.unb x hx
 
 /-- same stack, larger report -/
-theorem Sim.retarget {r : Res} {a b : St} {ex : List String}
-    (h : Sim top below r a ex P Q) (he : b.assigned = a.assigned)
-    (ho : ∀ x, a.reported x → b.reported x) : Sim top below r b ex P Q :=
+theorem Sim.retarget {r : Res} {a b : St}
+    (h : Sim top below r a P Q) (he : b.assigned = a.assigned)
+    (ho : ∀ x, a.reported x → b.reported x) : Sim top below r b P Q :=
   ⟨fun hs => (h.inv hs).of_assigned_eq he ho, h.grow, fun x hx => (h.reads x hx).imp (ho x) id,
     h.unb⟩
 
+theorem Sim.stopped_retarget {r : Res} {a b : St} (h : Sim top below r a P Q)
+    (hs : r.stopped = true) (ho : ∀ x, a.reported x → b.reported x) : Sim top below r b P Q :=
+  ⟨fun hn => (by rw [hs] at hn; cases hn), h.grow, fun x hx => (h.reads x hx).imp (ho x) id, h.unb⟩
+
 /-- the analysis pops the scope it pushed for a body that ran in the current frame -/
-theorem Sim.scope {r : Res} {a b : St} {ex : List String}
-    (ha : Inv top below a) (hs : Step a.push b) (h : Sim top below r b ex P Q) :
-    Sim top below r b.pop ex P Q := by
+theorem Sim.scope {r : Res} {a b : St}
+    (ha : Inv top below a) (hs : Step a.push b) (h : Sim top below r b P Q) :
+    Sim top below r b.pop P Q := by
   obtain ⟨e, o, _⟩ := step_scope hs
   exact ⟨fun _ => (ha.mono_top h.grow).of_assigned_eq e o, h.grow, h.reads, h.unb⟩
 
 theorem sim_visitLeaves {st : St} (ls : List Leaf) (P Q : String → Prop)
     (h : Inv top below st) :
-    Sim top below ⟨top, lookups top below (roots ls), false⟩ (visitLeaves st ls) [] P Q := by
+    Sim top below ⟨top, lookups top below (roots ls), false, false⟩ (visitLeaves st ls) P Q := by
   obtain ⟨h1, h2⟩ := inv_visitLeaves ls h
   exact ⟨fun _ => h1, fun _ hx => hx, fun x hx => Or.inl (h2 x hx),
     fun x hx => Or.inl ((mem_lookups _ _ _ _).1 hx).2⟩
 
 /-- facts about the look-ups of an expression list, for `Sim.prepend` -/
-theorem lookups_ok {st st' : St} (ls : List Leaf) (ex : List String) (P Q : String → Prop)
+theorem lookups_ok {st st' : St} (ls : List Leaf) (P Q : String → Prop)
     (h : Inv top below st) (hrep : ∀ x, (visitLeaves st ls).reported x → st'.reported x) :
     ∀ x ∈ lookups top below (roots ls),
-      (st'.reported x ∨ x ∈ ex ∨ P x) ∧ (bound top below x = false ∨ x ∈ ex ∨ Q x) :=
+      (st'.reported x ∨ P x) ∧ (bound top below x = false ∨ Q x) :=
   fun x hx => ⟨Or.inl (hrep x ((inv_visitLeaves ls h).2 x hx)),
     Or.inl ((mem_lookups _ _ _ _).1 hx).2⟩
 
 end
 
 /-- pairs (frame, look-ups) of the binding helpers as results -/
-def Res.ofPair (p : Frame × List String) : Res := ⟨p.1, p.2, false⟩
+def Res.ofPair (p : Frame × List String) : Res := ⟨p.1, p.2, false, false⟩
+
+theorem Sim.under_name {top : Frame} {below : List Frame} {P Q : String → Prop} {r : Res}
+    {st : St} (a : String) (h : Sim (a :: top) below r st P Q) : Sim top below r st P Q :=
+  ⟨h.inv, fun y hy => h.grow y (List.mem_cons_of_mem _ hy), h.reads,
+    fun y hy => (h.unb y hy).imp (unbound_anti (fun _ hz => List.mem_cons_of_mem _ hz)) id⟩
 
 theorem sim_atoms {top : Frame} {below : List Frame} (as : List TAtom) {st : St}
     (P Q : String → Prop) (h : Inv top below st) :
-    Sim top below (Res.ofPair (bindAtoms top below as)) (as.foldl trackAtom st) [] P Q := by
+    Sim top below (Res.ofPair (bindAtoms top below as)) (as.foldl trackAtom st) P Q := by
   induction as generalizing top st with
-  | nil => exact Sim.nil h [] P Q
+  | nil => exact Sim.nil h P Q
   | cons a as ih =>
     cases a with
     | name x =>
       simp only [bindAtoms, List.foldl_cons, trackAtom]
-      have := ih (inv_assign x h)
-      exact ⟨this.inv, fun y hy => this.grow y (List.mem_cons_of_mem _ hy), this.reads,
-        fun y hy => (this.unb y hy).imp
-          (unbound_anti (fun z hz => List.mem_cons_of_mem _ hz)) id⟩
+      exact (ih (inv_assign x h)).under_name x
     | look e =>
       simp only [bindAtoms, List.foldl_cons, trackAtom]
       have h1 := sim_visitLeaves (nvars e) P Q h
@@ -148,14 +136,26 @@ theorem sim_atoms {top : Frame} {below : List Frame} (as : List TAtom) {st : St}
 
 theorem sim_trackAssign {top : Frame} {below : List Frame} (t : Expr) {st : St}
     (P Q : String → Prop) (h : Inv top below st) :
-    Sim top below (Res.ofPair (bindAtoms top below (targetAtoms t))) (trackAssign st t) [] P Q :=
+    Sim top below (Res.ofPair (bindAtoms top below (targetAtoms t))) (trackAssign st t) P Q :=
   sim_atoms _ P Q h
+
+theorem sim_targets {top : Frame} {below : List Frame} (ts : List Expr) {st : St}
+    (P Q : String → Prop) (h : Inv top below st) :
+    Sim top below (Res.ofPair (bindTargets top below ts)) (ts.foldl trackAssign st) P Q := by
+  induction ts generalizing top st with
+  | nil => simpa [bindTargets, Res.ofPair] using Sim.nil h P Q
+  | cons t ts ih =>
+    simp only [bindTargets, List.foldl_cons]
+    have h1 := sim_trackAssign t P Q h
+    have h2 := ih (h1.inv rfl)
+    have := Sim.seq h1 h2 (step_trackTargets _ ts).rep
+    simpa [Res.ofPair] using this
 
 theorem sim_with {top : Frame} {below : List Frame} (as : List (Expr × Expr)) {st : St}
     (P Q : String → Prop) (h : Inv top below st) :
-    Sim top below (Res.ofPair (bindWith top below as)) (withAssigns st as) [] P Q := by
+    Sim top below (Res.ofPair (bindWith top below as)) (withAssigns st as) P Q := by
   induction as generalizing top st with
-  | nil => simpa [bindWith, withAssigns, Res.ofPair] using Sim.nil h [] P Q
+  | nil => simpa [bindWith, withAssigns, Res.ofPair] using Sim.nil h P Q
   | cons p as ih =>
     obtain ⟨t, e⟩ := p
     simp only [bindWith, withAssigns]
@@ -168,73 +168,22 @@ theorem sim_with {top : Frame} {below : List Frame} (as : List (Expr × Expr)) {
 
 theorem sim_args {top : Frame} {below : List Frame} (as : List String) (ds : List Expr) {st : St}
     (P Q : String → Prop) (h : Inv top below st) :
-    Sim top below (Res.ofPair (bindArgs top below as ds)) (macroArgs st as ds) [] P Q := by
+    Sim top below (Res.ofPair (bindArgs top below as ds)) (macroArgs st as ds) P Q := by
   induction as generalizing top st ds with
-  | nil => simpa [bindArgs, macroArgs, Res.ofPair] using Sim.nil h [] P Q
+  | nil => simpa [bindArgs, macroArgs, Res.ofPair] using Sim.nil h P Q
   | cons a as ih =>
     cases ds with
     | nil =>
       simp only [bindArgs, macroArgs]
-      have := ih [] (inv_assign a h)
-      exact ⟨this.inv, fun y hy => this.grow y (List.mem_cons_of_mem _ hy), this.reads,
-        fun y hy => (this.unb y hy).imp
-          (unbound_anti (fun z hz => List.mem_cons_of_mem _ hz)) id⟩
+      exact (ih [] (inv_assign a h)).under_name a
     | cons d ds =>
       simp only [bindArgs, macroArgs]
       have h1 := sim_visitLeaves (nvars d) P Q h
-      have h2 := ih ds (inv_assign a (h1.inv rfl))
-      have h2' : Sim top below (Res.ofPair (bindArgs (a :: top) below as ds))
-          (macroArgs ((visitExpr st d).assign a) as ds) [] P Q :=
-        ⟨h2.inv, fun y hy => h2.grow y (List.mem_cons_of_mem _ hy), h2.reads,
-          fun y hy => (h2.unb y hy).imp
-            (unbound_anti (fun z hz => List.mem_cons_of_mem _ hz)) id⟩
-      have := Sim.seq h1 h2' (Step.trans (step_assign _ a) (step_macroArgs _ as ds)).rep
-      simpa [Res.ofPair, vars] using this
+      have h2 := (ih ds (inv_assign a (h1.inv rfl))).under_name a
+      have := Sim.seq h1 h2 (Step.trans (step_assign _ a) (step_macroArgs _ as ds)).rep
+      simpa [Res.ofPair, vars, visitExpr] using this
 
 /-! ### re-entries: recursive loops and blocks -/
-
-/-- names a frame binds after the target atoms were stored -/
-theorem bound_bindAtoms (f : Frame) (bl : List Frame) (as : List TAtom) (x : String) :
-    bound (bindAtoms f bl as).1 bl x = true ↔
-      (∃ a ∈ as, a = TAtom.name x) ∨ bound f bl x = true := by
-  induction as generalizing f with
-  | nil => simp [bindAtoms]
-  | cons a as ih =>
-    cases a with
-    | name y =>
-      simp only [bindAtoms]
-      rw [ih]
-      constructor
-      · rintro (⟨a, ha, hax⟩ | h)
-        · exact Or.inl ⟨a, List.mem_cons_of_mem _ ha, hax⟩
-        · rw [bound_iff] at h
-          rcases h with h | h
-          · simp only [List.mem_cons] at h
-            rcases h with rfl | h
-            · exact Or.inl ⟨_, by simp, rfl⟩
-            · exact Or.inr ((bound_iff _ _ _).2 (Or.inl h))
-          · exact Or.inr ((bound_iff _ _ _).2 (Or.inr h))
-      · rintro (⟨a, ha, hax⟩ | h)
-        · simp only [List.mem_cons] at ha
-          rcases ha with rfl | ha
-          · injection hax with hax
-            subst hax
-            exact Or.inr (by simp [bound])
-          · exact Or.inl ⟨a, ha, hax⟩
-        · exact Or.inr (bound_mono (fun z hz => List.mem_cons_of_mem _ hz) h)
-    | look e =>
-      simp only [bindAtoms]
-      rw [ih]
-      constructor
-      · rintro (⟨a, ha, hax⟩ | h)
-        · exact Or.inl ⟨a, List.mem_cons_of_mem _ ha, hax⟩
-        · exact Or.inr h
-      · rintro (⟨a, ha, hax⟩ | h)
-        · simp only [List.mem_cons] at ha
-          rcases ha with rfl | ha
-          · cases hax
-          · exact Or.inl ⟨a, ha, hax⟩
-        · exact Or.inr h
 
 /-- a loop frame on top of frames that bind more binds more -/
 theorem loop_frame_mono {top top' : Frame} {below below' : List Frame} (f : Frame)
@@ -253,22 +202,20 @@ structure Ghost where
 def Ghost.sE (g : Ghost) (atoms : List TAtom) : St :=
   (visitOpt (atoms.foldl trackAtom g.sB) g.filter).assign "loop"
 
-
 /-- every running recursive loop can be re-entered from the current frames: its tracker is
-justified by a loop frame on top of them, what its body reports is accounted for by `P`, the
-self-referential macros in its body by `Q` -/
-def RcOK : RC → List Ghost → Frame → List Frame → (String → Prop) → (String → Prop) → Prop
-  | [], [], _, _, _, _ => True
-  | e :: rc, g :: G, top, below, P, Q =>
+justified by a loop frame on top of them, what its body reports is accounted for by `P` -/
+def RcOK : RC → List Ghost → Frame → List Frame → (String → Prop) → Prop
+  | [], [], _, _, _ => True
+  | e :: rc, g :: G, top, below, P =>
       (Inv ["loop"] (top :: below) g.sB ∧
-        (∀ x, (walkList (g.sE e.1) e.2).reported x → P x) ∧ (∀ x ∈ selfRefsL e.2, Q x)) ∧
-      RcOK rc G top below P Q
-  | _, _, _, _, _, _ => False
+        (∀ x, (walkList (g.sE e.1) e.2).reported x → P x)) ∧
+      RcOK rc G top below P
+  | _, _, _, _, _ => False
 
 theorem RcOK.mono {rc : RC} {G : List Ghost} {top top' : Frame} {below below' : List Frame}
-    {P P' Q Q' : String → Prop} (h : RcOK rc G top below P Q)
+    {P P' : String → Prop} (h : RcOK rc G top below P)
     (hb : ∀ x, bound top below x = true → bound top' below' x = true)
-    (hp : ∀ x, P x → P' x) (hq : ∀ x, Q x → Q' x) : RcOK rc G top' below' P' Q' := by
+    (hp : ∀ x, P x → P' x) : RcOK rc G top' below' P' := by
   induction rc generalizing G with
   | nil => cases G <;> simp_all [RcOK]
   | cons e rc ih =>
@@ -276,13 +223,12 @@ theorem RcOK.mono {rc : RC} {G : List Ghost} {top top' : Frame} {below below' : 
     | nil => simp [RcOK] at h
     | cons g G =>
       simp only [RcOK] at h ⊢
-      obtain ⟨⟨h1, h2, h3⟩, h4⟩ := h
-      exact ⟨⟨h1.of_bound (loop_frame_mono _ hb), fun x hx => hp x (h2 x hx),
-        fun x hx => hq x (h3 x hx)⟩, ih h4⟩
+      obtain ⟨⟨h1, h2⟩, h4⟩ := h
+      exact ⟨⟨h1.of_bound (loop_frame_mono _ hb), fun x hx => hp x (h2 x hx)⟩, ih h4⟩
 
 theorem RcOK.drop {rc : RC} {G : List Ghost} {top : Frame} {below : List Frame}
-    {P Q : String → Prop} (h : RcOK rc G top below P Q) (k : Nat) :
-    RcOK (rc.drop k) (G.drop k) top below P Q := by
+    {P : String → Prop} (h : RcOK rc G top below P) (k : Nat) :
+    RcOK (rc.drop k) (G.drop k) top below P := by
   induction k generalizing rc G with
   | zero => simpa using h
   | succ k ih =>
@@ -299,27 +245,26 @@ theorem RcOK.drop {rc : RC} {G : List Ghost} {top : Frame} {below : List Frame}
 structure Ctx (bt : BT) (P Q : String → Prop) : Prop where
   qp : ∀ x, Q x → P x
   free : ∀ body ∈ bt, ∀ x ∈ (walkList St.init body).out, Q x
-  self : ∀ body ∈ bt, ∀ x ∈ selfRefsL body, Q x
 
-theorem Ctx.mono {bt : BT} {P P' Q Q' : String → Prop} (h : Ctx bt P Q)
-    (hq : ∀ x, Q x → Q' x) (hqp : ∀ x, Q' x → P' x) : Ctx bt P' Q' :=
-  ⟨hqp, fun body hb x hx => hq x (h.free body hb x hx), fun body hb x hx => hq x (h.self body hb x hx)⟩
+theorem Ctx.mono {bt : BT} {P P' Q : String → Prop} (h : Ctx bt P Q)
+    (hqp : ∀ x, Q x → P' x) : Ctx bt P' Q :=
+  ⟨hqp, h.free⟩
 
 theorem Ctx.same {bt : BT} {P Q : String → Prop} (h : Ctx bt P Q) : Ctx bt Q Q :=
-  ⟨fun _ hx => hx, h.free, h.self⟩
+  ⟨fun _ hx => hx, h.free⟩
 
 /-- the handler only produces look-ups that are accounted for -/
 def KOK (K : Reenter) : Prop :=
   ∀ (P Q : String → Prop) (rc : RC) (G : List Ghost) (bt : BT) (top : Frame) (below : List Frame)
-    (reqs : List Ch), Ctx bt P Q → RcOK rc G top below P Q →
+    (reqs : List Ch), Ctx bt P Q → RcOK rc G top below P →
     ∀ x ∈ K rc bt top below reqs, P x ∧ (bound top below x = false ∨ Q x)
 
 /-- induction hypothesis for a sub-body -/
 def BodyOK (body : List Stmt) : Prop :=
   ∀ (K : Reenter), KOK K → ∀ (P Q : String → Prop) (rc : RC) (G : List Ghost) (bt : BT) (st : St)
     (top : Frame) (below : List Frame) (cs : List Ch),
-    Ctx bt P Q → RcOK rc G top below P Q → Inv top below st →
-    Sim top below (execList K rc bt top below cs body) (walkList st body) (selfRefsL body) P Q
+    Ctx bt P Q → RcOK rc G top below P → Inv top below st →
+    Sim top below (execList K rc bt top below cs body) (walkList st body) P Q
 
 /-- entering a loop body (first entry or re-entry): from the tracker in front of the target to
 the tracker at the body start, against a loop frame on top of the current frames -/
@@ -335,16 +280,8 @@ theorem loop_entry {top : Frame} {below : List Frame} (g : Ghost) (atoms : List 
   refine ⟨inv_assign_bound "loop" hiD hloop, fun x hx => ?_⟩
   have hr := hit.reads x hx
   have hu := hit.unb x hx
-  refine ⟨hr.resolve_right (by simp), ?_⟩
-  have := hu.resolve_right (by simp)
-  exact unbound_of_push this
-
-theorem Sim.stopped_retarget {top : Frame} {below : List Frame} {P Q : String → Prop} {r : Res}
-    {a b : St} {ex : List String} (h : Sim top below r a ex P Q) (hs : r.stopped = true)
-    (ho : ∀ x, a.reported x → b.reported x) : Sim top below r b ex P Q :=
-  ⟨fun hn => (by rw [hs] at hn; cases hn), h.grow, fun x hx => (h.reads x hx).imp (ho x) id, h.unb⟩
-
-theorem pop_out (st : St) : st.pop.out = st.out := rfl
+  refine ⟨hr.resolve_right (fun h => h), ?_⟩
+  exact unbound_of_push (hu.resolve_right (fun h => h))
 
 section
 variable {K : Reenter} (hK : KOK K) {P Q : String → Prop} {rc : RC} {G : List Ghost} {bt : BT}
@@ -353,16 +290,14 @@ include hK
 
 /-- a body that runs in the current frame while the analysis gives it a scope of its own -/
 theorem sim_scoped_body {body : List Stmt} (hb : BodyOK body) (hbt : Ctx bt P Q)
-    (hrc : RcOK rc G top below P Q) {a : St} (ha : Inv top below a) (cs : List Ch) :
-    Sim top below (execList K rc bt top below cs body) (walkList a.push body).pop
-      (selfRefsL body) P Q :=
+    (hrc : RcOK rc G top below P) {a : St} (ha : Inv top below a) (cs : List Ch) :
+    Sim top below (execList K rc bt top below cs body) (walkList a.push body).pop P Q :=
   Sim.scope ha (step_walkList body _) (hb K hK P Q rc G bt _ _ _ cs hbt hrc ha.push)
 
 theorem sim_if (e : Expr) (t f : List Stmt) (ht : BodyOK t) (hf : BodyOK f)
-    (st : St) (c : Ch) (hbt : Ctx bt P Q) (hrc : RcOK rc G top below P Q)
+    (st : St) (c : Ch) (hbt : Ctx bt P Q) (hrc : RcOK rc G top below P)
     (h : Inv top below st) :
-    Sim top below (exec K rc bt top below c (.ifCond e t f)) (walk st (.ifCond e t f))
-      (selfRefs (.ifCond e t f)) P Q := by
+    Sim top below (exec K rc bt top below c (.ifCond e t f)) (walk st (.ifCond e t f)) P Q := by
   have hv := sim_visitLeaves (nvars e) P Q h
   have hst2 : Step (visitExpr st e) (walkList (visitExpr st e).push t).pop :=
     step_of_scope (step_walkList t _)
@@ -372,41 +307,35 @@ theorem sim_if (e : Expr) (t f : List Stmt) (ht : BodyOK t) (hf : BodyOK f)
   obtain ⟨e2, o2, _⟩ := step_scope (step_walkList t (visitExpr st e).push)
   obtain ⟨e3, o3, _⟩ := step_scope (step_walkList f (walkList (visitExpr st e).push t).pop.push)
   have hl := lookups_ok (st' := (walkList (walkList (visitExpr st e).push t).pop.push f).pop)
-    (nvars e) (selfRefsL t ++ selfRefsL f) P Q h (Step.trans hst2 hst3).rep
-  simp only [walk, selfRefs]
+    (nvars e) P Q h (Step.trans hst2 hst3).rep
+  simp only [walk]
   by_cases hn : c.n = 0
   · simp only [exec, hn, if_true]
     have hi2 : Inv top below (walkList (visitExpr st e).push t).pop :=
       (hv.inv rfl).of_assigned_eq e2 o2
-    have h3 := (sim_scoped_body hK hf hbt hrc hi2 c.sub0).ex_mono
-      (ex' := selfRefsL t ++ selfRefsL f) (fun x hx => List.mem_append_right _ hx)
-      (fun _ hp => hp) (fun _ hp => hp)
-    exact Sim.prepend _ h3 hl
+    exact Sim.prepend _ (sim_scoped_body hK hf hbt hrc hi2 c.sub0) hl
   · simp only [exec, hn, if_false]
-    have h2 := ((sim_scoped_body hK ht hbt hrc (hv.inv rfl) c.sub0).retarget e3 o3).ex_mono
-      (ex' := selfRefsL t ++ selfRefsL f) (fun x hx => List.mem_append_left _ hx)
-      (fun _ hp => hp) (fun _ hp => hp)
-    exact Sim.prepend _ h2 hl
+    exact Sim.prepend _ ((sim_scoped_body hK ht hbt hrc (hv.inv rfl) c.sub0).retarget e3 o3) hl
 
 theorem sim_autoEscape (e : Expr) (body : List Stmt) (hb : BodyOK body)
-    (st : St) (c : Ch) (hbt : Ctx bt P Q) (hrc : RcOK rc G top below P Q)
+    (st : St) (c : Ch) (hbt : Ctx bt P Q) (hrc : RcOK rc G top below P)
     (h : Inv top below st) :
     Sim top below (exec K rc bt top below c (.autoEscape e body)) (walk st (.autoEscape e body))
-      (selfRefs (.autoEscape e body)) P Q := by
+      P Q := by
   have hv := sim_visitLeaves (nvars e) P Q h
   have h2 := sim_scoped_body hK hb hbt hrc (hv.inv rfl) c.sub0
   have hl := lookups_ok (st' := (walkList (visitExpr st e).push body).pop)
-    (nvars e) (selfRefsL body) P Q h (step_of_scope (step_walkList body (visitExpr st e).push)).rep
-  simp only [walk, exec, selfRefs]
+    (nvars e) P Q h (step_of_scope (step_walkList body (visitExpr st e).push)).rep
+  simp only [walk, exec]
   exact Sim.prepend _ h2 hl
 
 theorem sim_filterBlock (filter : Expr) (body : List Stmt) (hb : BodyOK body)
-    (st : St) (c : Ch) (hbt : Ctx bt P Q) (hrc : RcOK rc G top below P Q)
+    (st : St) (c : Ch) (hbt : Ctx bt P Q) (hrc : RcOK rc G top below P)
     (h : Inv top below st) :
     Sim top below (exec K rc bt top below c (.filterBlock filter body))
-      (walk st (.filterBlock filter body)) (selfRefs (.filterBlock filter body)) P Q := by
+      (walk st (.filterBlock filter body)) P Q := by
   have h1 := sim_scoped_body hK hb hbt hrc h c.sub0
-  simp only [walk, selfRefs]
+  simp only [walk]
   by_cases hs : (execList K rc bt top below c.sub0 body).stopped = true
   · simp only [exec, hs, if_true]
     exact h1.stopped_retarget hs (step_visitExpr _ filter).rep
@@ -415,15 +344,15 @@ theorem sim_filterBlock (filter : Expr) (body : List Stmt) (hb : BodyOK body)
     simp only [exec, hs', Bool.false_eq_true, if_false]
     have h2 := sim_visitLeaves (nvars filter) P Q (h1.inv hs')
     have := Sim.seq h1 h2 (step_visitLeaves _ _).rep
-    simpa only [List.append_nil, visitExpr, vars] using this
+    simpa only [visitExpr, vars] using this
 
 theorem sim_setBlock (target : Expr) (filter : Option Expr) (body : List Stmt) (hb : BodyOK body)
-    (st : St) (c : Ch) (hbt : Ctx bt P Q) (hrc : RcOK rc G top below P Q)
+    (st : St) (c : Ch) (hbt : Ctx bt P Q) (hrc : RcOK rc G top below P)
     (h : Inv top below st) :
     Sim top below (exec K rc bt top below c (.setBlock target filter body))
-      (walk st (.setBlock target filter body)) (selfRefs (.setBlock target filter body)) P Q := by
+      (walk st (.setBlock target filter body)) P Q := by
   have h1 := sim_scoped_body hK hb hbt hrc h c.sub0
-  simp only [walk, selfRefs]
+  simp only [walk]
   by_cases hs : (execList K rc bt top below c.sub0 body).stopped = true
   · simp only [exec, hs, if_true]
     exact h1.stopped_retarget hs
@@ -435,47 +364,67 @@ theorem sim_setBlock (target : Expr) (filter : Option Expr) (body : List Stmt) (
     have h12 := Sim.seq h1 h2 (step_visitLeaves _ _).rep
     have h3 := sim_trackAssign target P Q (h12.inv rfl)
     have := Sim.seq h12 h3 (step_trackAssign _ target).rep
-    simpa only [List.append_nil, visitOpt, varsOpt, List.append_assoc, Res.ofPair] using this
+    simpa only [visitOpt, varsOpt, List.append_assoc, Res.ofPair] using this
 
 omit hK in
 theorem sim_set (target e : Expr)
     (st : St) (c : Ch) (h : Inv top below st) :
-    Sim top below (exec K rc bt top below c (.set target e)) (walk st (.set target e))
-      (selfRefs (.set target e)) P Q := by
+    Sim top below (exec K rc bt top below c (.set target e)) (walk st (.set target e)) P Q := by
   have h1 := sim_visitLeaves (nvars e) P Q h
   have h2 := sim_trackAssign target P Q (h1.inv rfl)
   have := Sim.seq h1 h2 (step_trackAssign _ target).rep
-  simpa only [walk, exec, selfRefs, List.append_nil, visitExpr, vars, Res.ofPair] using this
+  simpa only [walk, exec, visitExpr, vars, Res.ofPair] using this
+
+omit hK in
+theorem lookups_push (xs : List String) :
+    lookups [] (top :: below) xs = lookups top below xs := by
+  simp [lookups, bound_push]
+
+omit hK in
+theorem sim_importAs (e target : Expr)
+    (st : St) (c : Ch) (h : Inv top below st) :
+    Sim top below (exec K rc bt top below c (.importAs e target)) (walk st (.importAs e target))
+      P Q := by
+  have h1 := sim_visitLeaves (nvars e) P Q h
+  have h2 := sim_trackAssign target P Q (h1.inv rfl)
+  have := Sim.seq h1 h2 (step_trackAssign _ target).rep
+  simpa only [walk, exec, visitExpr, vars, Res.ofPair, lookups_push] using this
+
+omit hK in
+theorem sim_fromImport (e : Expr) (targets : List Expr)
+    (st : St) (c : Ch) (h : Inv top below st) :
+    Sim top below (exec K rc bt top below c (.fromImport e targets))
+      (walk st (.fromImport e targets)) P Q := by
+  have h1 := sim_visitLeaves (nvars e) P Q h
+  have h2 := sim_targets targets P Q (h1.inv rfl)
+  have := Sim.seq h1 h2 (step_trackTargets _ targets).rep
+  simpa only [walk, exec, visitExpr, vars, Res.ofPair, lookups_push] using this
 
 theorem sim_withBlock (assigns : List (Expr × Expr)) (body : List Stmt) (hb : BodyOK body)
-    (st : St) (c : Ch) (hbt : Ctx bt P Q) (hrc : RcOK rc G top below P Q)
+    (st : St) (c : Ch) (hbt : Ctx bt P Q) (hrc : RcOK rc G top below P)
     (h : Inv top below st) :
     Sim top below (exec K rc bt top below c (.withBlock assigns body))
-      (walk st (.withBlock assigns body)) (selfRefs (.withBlock assigns body)) P Q := by
+      (walk st (.withBlock assigns body)) P Q := by
   have h1 := sim_with assigns P Q h.push.push_frame
-  have hrc' : RcOK rc G (bindWith [] (top :: below) assigns).1 (top :: below) P Q :=
-    hrc.mono (fun x hx => (bound_cons_iff _ _ _ _).2 (Or.inr hx)) (fun _ hp => hp) (fun _ hp => hp)
+  have hrc' : RcOK rc G (bindWith [] (top :: below) assigns).1 (top :: below) P :=
+    hrc.mono (fun x hx => (bound_cons_iff _ _ _ _).2 (Or.inr hx)) (fun _ hp => hp)
   have h2 := hb K hK P Q rc G bt _ _ _ c.sub0 hbt hrc' (h1.inv rfl)
   have h12 := Sim.seq h1 h2 (step_walkList body _).rep
   obtain ⟨e, o, _⟩ := step_scope
     (Step.trans (step_withAssigns st.push assigns) (step_walkList body _))
-  simp only [walk, exec, selfRefs]
+  simp only [walk, exec]
   refine ⟨fun _ => h.of_assigned_eq e o, fun _ hx => hx, ?_, ?_⟩
   · intro x hx
-    have := h12.reads x hx
-    simpa [pop_reported] using this
+    exact h12.reads x hx
   · intro x hx
-    rcases h12.unb x hx with hu | hu
-    · exact Or.inl (by rw [bound_push] at hu; exact hu)
-    · exact Or.inr (by simpa using hu)
+    exact (h12.unb x hx).imp (fun hu => by rw [bound_push] at hu; exact hu) id
 
 theorem sim_for (target iter : Expr) (filter : Option Expr) (recursive : Bool)
     (body els : List Stmt) (hb : BodyOK body) (he : BodyOK els)
-    (st : St) (c : Ch) (hbt : Ctx bt P Q) (hrc : RcOK rc G top below P Q)
+    (st : St) (c : Ch) (hbt : Ctx bt P Q) (hrc : RcOK rc G top below P)
     (h : Inv top below st) :
     Sim top below (exec K rc bt top below c (.forLoop target iter filter recursive body els))
-      (walk st (.forLoop target iter filter recursive body els))
-      (selfRefs (.forLoop target iter filter recursive body els)) P Q := by
+      (walk st (.forLoop target iter filter recursive body els)) P Q := by
   -- tracker states along `track_walk`
   generalize hsB : visitExpr st.push iter = sB
   generalize hsC : trackAssign sB target = sC
@@ -501,23 +450,16 @@ theorem sim_for (target iter : Expr) (filter : Option Expr) (recursive : Bool)
   have oD : ∀ x, sD.reported x → sH.pop.reported x := fun x hx => oF x (stDF.rep x hx)
   have oC : ∀ x, sC.reported x → sH.pop.reported x := fun x hx => oD x (stCD.rep x hx)
   have oB : ∀ x, sB.reported x → sH.pop.reported x := fun x hx => oC x (stBC.rep x hx)
-  have exE : ∀ x ∈ selfRefsL els, x ∈ selfRefsL body ++ selfRefsL els :=
-    fun x hx => List.mem_append_right _ hx
-  have exB : ∀ x ∈ selfRefsL body, x ∈ selfRefsL body ++ selfRefsL els :=
-    fun x hx => List.mem_append_left _ hx
   -- the iterable, evaluated outside
   have hiB : Inv top below sB := hsB ▸ (inv_visitLeaves (nvars iter) h.push).1
-  have r0_ok := lookups_ok (st' := sH.pop) (nvars iter) (selfRefsL body ++ selfRefsL els) P Q
+  have r0_ok := lookups_ok (st' := sH.pop) (nvars iter) P Q
     h.push (fun x hx => oB x (by rw [← hsB]; exact hx))
   -- the else body, in the outer frame
-  have hElse : ∀ cs, Sim top below (execList K rc bt top below cs els) sH.pop
-      (selfRefsL body ++ selfRefsL els) P Q := by
+  have hElse : ∀ cs, Sim top below (execList K rc bt top below cs els) sH.pop P Q := by
     intro cs
     have := sim_scoped_body hK he hbt hrc hiG cs
-    rw [hsH] at this
-    exact this.ex_mono exE (fun _ hp => hp) (fun _ hp => hp)
+    rwa [hsH] at this
   rw [hw]
-  simp only [selfRefs]
   by_cases hn0 : c.n = 0
   · simp only [exec, hn0, if_true]
     exact Sim.prepend _ (hElse c.sub0) r0_ok
@@ -530,15 +472,14 @@ theorem sim_for (target iter : Expr) (filter : Option Expr) (recursive : Bool)
     have rf_ok : ∀ x ∈ (bindAtoms [] (top :: below) (targetAtoms target)).2 ++
         lookups (bindAtoms [] (top :: below) (targetAtoms target)).1 (top :: below)
           (varsOpt filter),
-        (sH.pop.reported x ∨ x ∈ selfRefsL body ++ selfRefsL els ∨ P x) ∧
-        (bound top below x = false ∨ x ∈ selfRefsL body ++ selfRefsL els ∨ Q x) := by
+        (sH.pop.reported x ∨ P x) ∧ (bound top below x = false ∨ Q x) := by
       intro x hx
       rw [List.mem_append] at hx
       rcases hx with hx | hx
-      · refine ⟨Or.inl (oC x ((hft.reads x hx).resolve_right (by simp))), Or.inl ?_⟩
-        have := (hft.unb x hx).resolve_right (by simp)
+      · refine ⟨Or.inl (oC x ((hft.reads x hx).resolve_right (fun h => h))), Or.inl ?_⟩
+        have := (hft.unb x hx).resolve_right (fun h => h)
         rwa [bound_push] at this
-      · refine ⟨Or.inl (oD x ((hfv.reads x hx).resolve_right (by simp))), Or.inl ?_⟩
+      · refine ⟨Or.inl (oD x ((hfv.reads x hx).resolve_right (fun h => h))), Or.inl ?_⟩
         exact unbound_of_push ((mem_lookups _ _ _ _).1 hx).2
     by_cases hn1 : c.n = 1
     · simp only [exec, hn1, if_true, if_false, Nat.one_ne_zero]
@@ -549,23 +490,19 @@ theorem sim_for (target iter : Expr) (filter : Option Expr) (recursive : Bool)
       obtain ⟨hiE, hit2⟩ := loop_entry (Ghost.mk sB filter) (targetAtoms target) hiBl
       rw [hgE] at hiE
       -- what the body may rely on: the enclosing promises plus its own report
-      have hbt' : Ctx bt (fun x => P x ∨ sF.reported x ∨ x ∈ selfRefsL body)
-          (fun x => Q x ∨ x ∈ selfRefsL body) :=
-        hbt.mono (fun _ hq => Or.inl hq)
-          (fun x hq => hq.elim (fun hq => Or.inl (hbt.qp x hq)) (fun hs => Or.inr (Or.inr hs)))
+      have hbt' : Ctx bt (fun x => P x ∨ sF.reported x) Q :=
+        hbt.mono (fun x hq => Or.inl (hbt.qp x hq))
       have hup : ∀ x, bound top below x = true →
           bound (bindAtoms ["loop"] (top :: below) (targetAtoms target)).1 (top :: below) x = true :=
         fun x hx => (bound_cons_iff _ _ _ _).2 (Or.inr hx)
       have hrc0 : RcOK rc G (bindAtoms ["loop"] (top :: below) (targetAtoms target)).1
-          (top :: below) (fun x => P x ∨ sF.reported x ∨ x ∈ selfRefsL body)
-          (fun x => Q x ∨ x ∈ selfRefsL body) :=
-        hrc.mono hup (fun _ hp => Or.inl hp) (fun _ hq => Or.inl hq)
+          (top :: below) (fun x => P x ∨ sF.reported x) :=
+        hrc.mono hup (fun _ hp => Or.inl hp)
       have hbody : ∀ kid, Sim (bindAtoms ["loop"] (top :: below) (targetAtoms target)).1
           (top :: below)
           (execList K (if recursive then (targetAtoms target, body) :: rc else rc) bt
             (bindAtoms ["loop"] (top :: below) (targetAtoms target)).1 (top :: below) kid body)
-          sF (selfRefsL body) (fun x => P x ∨ sF.reported x ∨ x ∈ selfRefsL body)
-          (fun x => Q x ∨ x ∈ selfRefsL body) := by
+          sF (fun x => P x ∨ sF.reported x) Q := by
         intro kid
         cases recursive with
         | false =>
@@ -575,12 +512,11 @@ theorem sim_for (target iter : Expr) (filter : Option Expr) (recursive : Bool)
         | true =>
           have hrc1 : RcOK ((targetAtoms target, body) :: rc) (Ghost.mk sB filter :: G)
               (bindAtoms ["loop"] (top :: below) (targetAtoms target)).1 (top :: below)
-              (fun x => P x ∨ sF.reported x ∨ x ∈ selfRefsL body)
-              (fun x => Q x ∨ x ∈ selfRefsL body) := by
-            refine ⟨⟨hiBl.of_bound (loop_frame_mono _ hup), ?_, fun x hx => Or.inr hx⟩, hrc0⟩
+              (fun x => P x ∨ sF.reported x) := by
+            refine ⟨⟨hiBl.of_bound (loop_frame_mono _ hup), ?_⟩, hrc0⟩
             intro x hx
             simp only [hgE, hsF] at hx
-            exact Or.inr (Or.inl hx)
+            exact Or.inr hx
           have := hb K hK _ _ _ _ bt _ _ _ kid hbt' hrc1 hiE
           rw [hsF] at this
           simpa using this
@@ -593,12 +529,10 @@ theorem sim_for (target iter : Expr) (filter : Option Expr) (recursive : Bool)
         · exact Or.inl (oC x (by rw [← hsC]; exact (hit2 x hx).1))
         · rw [List.mem_flatMap] at hx
           obtain ⟨kid, _, hx⟩ := hx
-          rcases (hbody kid).reads x hx with hr | hr | hr | hr | hr
+          rcases (hbody kid).reads x hx with hr | hr | hr
           · exact Or.inl (oF x hr)
-          · exact Or.inr (Or.inl (exB x hr))
-          · exact Or.inr (Or.inr hr)
+          · exact Or.inr hr
           · exact Or.inl (oF x hr)
-          · exact Or.inr (Or.inl (exB x hr))
       · intro x hx
         simp only [List.mem_append] at hx
         rcases hx with hx | hx | hx | hx
@@ -607,11 +541,7 @@ theorem sim_for (target iter : Expr) (filter : Option Expr) (recursive : Bool)
         · exact Or.inl (hit2 x hx).2
         · rw [List.mem_flatMap] at hx
           obtain ⟨kid, _, hx⟩ := hx
-          rcases (hbody kid).unb x hx with hr | hr | hr | hr
-          · exact Or.inl (unbound_of_push hr)
-          · exact Or.inr (Or.inl (exB x hr))
-          · exact Or.inr (Or.inr hr)
-          · exact Or.inr (Or.inl (exB x hr))
+          exact ((hbody kid).unb x hx).imp unbound_of_push id
 
 /-! ### macros -/
 
@@ -636,15 +566,15 @@ theorem macroFrame_bound (args : List String) (defaults : List Expr) (body : Lis
     simp [this]
   · exact List.mem_append_right _ (mem_closureNames.2 ⟨hx, hc⟩)
 
-/-- a macro body (prologue + body) run in its own context asks the render context for
-nothing except the own names of self-referential macros declared inside it and what the
-blocks it renders ask for -/
+/-- closure visibility: a macro body (prologue + body) run in its own context — closure frame,
+locals, base context — asks the render context for nothing except what the blocks it renders
+ask for; every free name of the body was captured at the declaration -/
 theorem macro_body_reads (args : List String) (defaults : List Expr) (body : List Stmt)
     (hb : BodyOK body) (hbt : Ctx bt P Q) (kid : List Ch) (x : String)
     (hx : x ∈ (bindArgs (macroFrame args defaults body) [[]] args.reverse defaults.reverse).2 ++
       (execList K [] bt
         (bindArgs (macroFrame args defaults body) [[]] args.reverse defaults.reverse).1
-        [[]] kid body).reads) : x ∈ selfRefsL body ∨ Q x := by
+        [[]] kid body).reads) : Q x := by
   have hinit : Inv (macroFrame args defaults body) [[]] St.init := by
     intro y hy; simp [St.init, St.isAssigned] at hy
   have ha := sim_args args.reverse defaults.reverse Q Q hinit
@@ -652,18 +582,13 @@ theorem macro_body_reads (args : List String) (defaults : List Expr) (body : Lis
   have hall := Sim.seq ha hbody (step_walkList body _).rep
   have hflat : (walkList (macroArgs St.init args.reverse defaults.reverse) body).nested = none :=
     (Step.trans (step_macroArgs St.init _ _) (step_walkList body _)).nn rfl
-  have hr := hall.reads x hx
-  have hu := hall.unb x hx
-  simp only [List.nil_append] at hr hu
-  rcases hu with hu | hu | hu
-  · rcases hr with hr | hr | hr
+  rcases hall.unb x hx with hu | hu
+  · rcases hall.reads x hx with hr | hr
     · rw [reported_none hflat] at hr
       have := macroFrame_bound args defaults body x hr
       rw [hu] at this; cases this
-    · exact Or.inl hr
-    · exact Or.inr hr
-  · exact Or.inl hu
-  · exact Or.inr hu
+    · exact hr
+  · exact hu
 
 omit hK in
 /-- look-ups of `Enclose` at a macro declaration -/
@@ -684,57 +609,47 @@ theorem sim_macro (name : String) (args : List String) (defaults : List Expr) (b
     (hb : BodyOK body)
     (st : St) (c : Ch) (hbt : Ctx bt P Q) (h : Inv top below st) :
     Sim top below (exec K rc bt top below c (.macro name args defaults body))
-      (walk st (.macro name args defaults body)) (selfRefs (.macro name args defaults body))
-      P Q := by
-  generalize hs5 : walkList (macroArgs ((st.assign name).push.assign "caller") args.reverse
+      (walk st (.macro name args defaults body)) P Q := by
+  generalize hs5 : walkList (macroArgs (st.push.assign "caller") args.reverse
     defaults.reverse) body = s5
-  have hw : walk st (.macro name args defaults body) = s5.pop := by simp only [walk, hs5]
-  have hst : Step (st.assign name).push s5 :=
+  have hw : walk st (.macro name args defaults body) = s5.pop.assign name := by
+    simp only [walk, hs5]
+  have hst : Step st.push s5 :=
     hs5 ▸ Step.trans (Step.trans (step_assign _ _) (step_macroArgs _ _ _)) (step_walkList _ _)
   obtain ⟨e5, o5, _⟩ := step_scope hst
-  have oSt : ∀ x, st.reported x → s5.pop.reported x :=
-    fun x hx => o5 x ((step_assign st name).rep x hx)
+  have hi5 : Inv top below s5.pop := h.of_assigned_eq e5 o5
   rw [hw]
-  simp only [exec, selfRefs]
-  refine ⟨fun _ => (inv_assign name h).of_assigned_eq e5 o5,
-    fun x hx => List.mem_cons_of_mem _ hx, ?_, ?_⟩
+  simp only [exec]
+  refine ⟨fun _ => inv_assign name hi5, fun x hx => List.mem_cons_of_mem _ hx, ?_, ?_⟩
   · intro x hx
     rw [List.mem_append] at hx
     rcases hx with hx | hx
     · obtain ⟨hx1, hx2⟩ := (mem_lookups _ _ _ _).1 hx
-      have := enclose_reads (st.assign name).push (by simp [St.push]) args defaults body x hx1
+      have := enclose_reads st.push (by simp [St.push]) args defaults body x hx1
       rw [hs5] at this
+      rw [assign_reported]
       rcases this with h1 | h1
       · exact Or.inl h1
       · rw [isAssigned_push] at h1
-        rcases isAssigned_assign_imp _ _ _ h1 with h2 | h2
-        · subst h2
-          right; left
-          simp [hx1]
-        · rcases h x h2 with h3 | h3
-          · exact Or.inl (oSt x h3)
-          · rw [hx2] at h3; cases h3
+        rcases h x h1 with h3 | h3
+        · exact Or.inl (o5 x h3)
+        · rw [hx2] at h3; cases h3
     · rw [List.mem_flatMap] at hx
       obtain ⟨kid, _, hx⟩ := hx
-      rcases macro_body_reads hK args defaults body hb hbt kid x hx with hr | hr
-      · exact Or.inr (Or.inl (List.mem_append_right _ hr))
-      · exact Or.inr (Or.inr (hbt.qp x hr))
+      exact Or.inr (hbt.qp x (macro_body_reads hK args defaults body hb hbt kid x hx))
   · intro x hx
     rw [List.mem_append] at hx
     rcases hx with hx | hx
     · exact Or.inl ((mem_lookups _ _ _ _).1 hx).2
     · rw [List.mem_flatMap] at hx
       obtain ⟨kid, _, hx⟩ := hx
-      rcases macro_body_reads hK args defaults body hb hbt kid x hx with hr | hr
-      · exact Or.inr (Or.inl (List.mem_append_right _ hr))
-      · exact Or.inr (Or.inr hr)
+      exact Or.inr (macro_body_reads hK args defaults body hb hbt kid x hx)
 
 theorem sim_callBlock (callee : Expr) (cargs : List CallArg) (args : List String)
     (defaults : List Expr) (body : List Stmt) (hb : BodyOK body)
     (st : St) (c : Ch) (hbt : Ctx bt P Q) (h : Inv top below st) :
     Sim top below (exec K rc bt top below c (.callBlock callee cargs args defaults body))
-      (walk st (.callBlock callee cargs args defaults body))
-      (selfRefs (.callBlock callee cargs args defaults body)) P Q := by
+      (walk st (.callBlock callee cargs args defaults body)) P Q := by
   obtain ⟨hi1, hrd⟩ := inv_visitLeaves (nvarsCall callee cargs) h
   generalize hs1 : visitLeaves st (nvarsCall callee cargs) = s1 at hi1 hrd
   generalize hs5 : walkList (macroArgs (s1.push.assign "caller") args.reverse
@@ -745,7 +660,7 @@ theorem sim_callBlock (callee : Expr) (cargs : List CallArg) (args : List String
     hs5 ▸ Step.trans (Step.trans (step_assign _ _) (step_macroArgs _ _ _)) (step_walkList _ _)
   obtain ⟨e5, o5, _⟩ := step_scope hst
   rw [hw]
-  simp only [exec, selfRefs]
+  simp only [exec]
   refine ⟨fun _ => hi1.of_assigned_eq e5 o5, fun x hx => hx, ?_, ?_⟩
   · intro x hx
     rw [List.mem_append, List.mem_append] at hx
@@ -762,9 +677,7 @@ theorem sim_callBlock (callee : Expr) (cargs : List CallArg) (args : List String
         · rw [hx2] at h3; cases h3
     · rw [List.mem_flatMap] at hx
       obtain ⟨kid, _, hx⟩ := hx
-      rcases macro_body_reads hK args defaults body hb hbt kid x hx with hr | hr
-      · exact Or.inr (Or.inl hr)
-      · exact Or.inr (Or.inr (hbt.qp x hr))
+      exact Or.inr (hbt.qp x (macro_body_reads hK args defaults body hb hbt kid x hx))
   · intro x hx
     rw [List.mem_append, List.mem_append] at hx
     rcases hx with hx | hx | hx
@@ -772,48 +685,34 @@ theorem sim_callBlock (callee : Expr) (cargs : List CallArg) (args : List String
     · exact Or.inl ((mem_lookups _ _ _ _).1 hx).2
     · rw [List.mem_flatMap] at hx
       obtain ⟨kid, _, hx⟩ := hx
-      rcases macro_body_reads hK args defaults body hb hbt kid x hx with hr | hr
-      · exact Or.inr (Or.inl hr)
-      · exact Or.inr (Or.inr hr)
-
-end
-
-
-/-! ### blocks, loop controls, the induction -/
-
-section
-variable {K : Reenter} (hK : KOK K) {P Q : String → Prop} {rc : RC} {G : List Ghost} {bt : BT}
-  {top : Frame} {below : List Frame}
-include hK
+      exact Or.inr (macro_body_reads hK args defaults body hb hbt kid x hx)
 
 theorem sim_block (name : String) (body : List Stmt) (hb : BodyOK body)
     (st : St) (c : Ch) (hbt : Ctx bt P Q) (h : Inv top below st) :
     Sim top below (exec K rc bt top below c (.block name body)) (walk st (.block name body))
-      (selfRefs (.block name body)) P Q := by
+      P Q := by
   have hin : Inv [] (top :: below) { st with assigned := [[]] } := by
     intro y hy; simp [St.isAssigned] at hy
   have hs := hb K hK P Q [] [] bt _ _ _ c.sub0 hbt (by simp [RcOK]) hin
   have hst := step_walkList body { st with assigned := [[]] }
-  simp only [walk, exec, selfRefs]
+  simp only [walk, exec]
   refine ⟨fun _ => h.of_assigned_eq rfl (fun x hx => hst.rep x hx), fun _ hx => hx, ?_, ?_⟩
   · intro x hx
     exact hs.reads x hx
   · intro x hx
-    rcases hs.unb x hx with hu | hu
-    · exact Or.inl (by rw [bound_push] at hu; exact hu)
-    · exact Or.inr hu
+    exact (hs.unb x hx).imp (fun hu => by rw [bound_push] at hu; exact hu) id
 
 end
 
 mutual
 theorem sim_walk : (s : Stmt) → ∀ (K : Reenter), KOK K → ∀ (P Q : String → Prop) (rc : RC)
     (G : List Ghost) (bt : BT) (st : St) (top : Frame) (below : List Frame) (c : Ch),
-    Ctx bt P Q → RcOK rc G top below P Q → Inv top below st →
-    Sim top below (exec K rc bt top below c s) (walk st s) (selfRefs s) P Q
+    Ctx bt P Q → RcOK rc G top below P → Inv top below st →
+    Sim top below (exec K rc bt top below c s) (walk st s) P Q
   | .emit e => fun K _ P Q rc G bt st top below c _ _ h => by
-      simpa only [walk, exec, selfRefs, visitExpr, vars] using sim_visitLeaves (nvars e) P Q h
+      simpa only [walk, exec, visitExpr, vars] using sim_visitLeaves (nvars e) P Q h
   | .raw => fun K _ P Q rc G bt st top below c _ _ h => by
-      simpa only [walk, exec, selfRefs] using Sim.nil h [] P Q
+      simpa only [walk, exec] using Sim.nil h P Q
   | .forLoop target iter filter recursive body els => fun K hK P Q rc G bt st top below c hbt hrc h =>
       sim_for hK target iter filter recursive body els (sim_walkList body) (sim_walkList els)
         st c hbt hrc h
@@ -833,39 +732,50 @@ theorem sim_walk : (s : Stmt) → ∀ (K : Reenter), KOK K → ∀ (P Q : String
   | .callBlock callee cargs args defaults body => fun K hK P Q rc G bt st top below c hbt _ h =>
       sim_callBlock hK callee cargs args defaults body (sim_walkList body) st c hbt h
   | .doStmt callee cargs => fun K _ P Q rc G bt st top below c _ _ h => by
-      simpa only [walk, exec, selfRefs, varsCall] using
-        sim_visitLeaves (nvarsCall callee cargs) P Q h
+      simpa only [walk, exec, varsCall] using sim_visitLeaves (nvarsCall callee cargs) P Q h
   | .brk => fun K _ P Q rc G bt st top below c _ _ h => by
-      simp only [walk, exec, selfRefs]
+      simp only [walk, exec]
       exact ⟨fun hn => (by cases hn), fun _ hx => hx, fun x hx => (by cases hx),
         fun x hx => (by cases hx)⟩
   | .cont => fun K _ P Q rc G bt st top below c _ _ h => by
-      simp only [walk, exec, selfRefs]
+      simp only [walk, exec]
       exact ⟨fun hn => (by cases hn), fun _ hx => hx, fun x hx => (by cases hx),
         fun x hx => (by cases hx)⟩
   | .block name body => fun K hK P Q rc G bt st top below c hbt _ h =>
       sim_block hK name body (sim_walkList body) st c hbt h
+  | .include name => fun K _ P Q rc G bt st top below c _ _ h => by
+      simpa only [walk, exec, visitExpr, vars] using sim_visitLeaves (nvars name) P Q h
+  | .extends name => fun K _ P Q rc G bt st top below c _ _ h => by
+      simpa only [walk, exec, visitExpr, vars] using sim_visitLeaves (nvars name) P Q h
+  | .importAs e target => fun K _ P Q rc G bt st top below c _ _ h => sim_importAs e target st c h
+  | .fromImport e targets => fun K _ P Q rc G bt st top below c _ _ h =>
+      sim_fromImport e targets st c h
 theorem sim_walkList : (ss : List Stmt) → BodyOK ss
   | [] => fun K _ P Q rc G bt st top below cs _ _ h => by
-      simpa only [walkList, execList, selfRefsL] using Sim.nil h [] P Q
+      simpa only [walkList, execList] using Sim.nil h P Q
   | s :: ss => fun K hK P Q rc G bt st top below cs hbt hrc h => by
       have hq := hK P Q rc G bt top below (cs.headD Ch.default).reqs hbt hrc
       have h1 := sim_walk s K hK P Q rc G bt st top below (cs.headD Ch.default) hbt hrc h
-      have hq' : ∀ x ∈ K rc bt top below (cs.headD Ch.default).reqs,
-          ((walkList (walk st s) ss).reported x ∨ x ∈ selfRefs s ++ selfRefsL ss ∨ P x) ∧
-          (bound top below x = false ∨ x ∈ selfRefs s ++ selfRefsL ss ∨ Q x) :=
-        fun x hx => ⟨Or.inr (Or.inr (hq x hx).1), (hq x hx).2.imp id Or.inr⟩
-      simp only [walkList, execList, selfRefsL]
-      by_cases hs : (exec K rc bt top below (cs.headD Ch.default) s).stopped = true
-      · simp only [hs, if_true]
-        exact Sim.prepend _ (Sim.stop (selfRefsL ss) h1 (step_walkList ss _).rep) hq'
-      · have hs' : (exec K rc bt top below (cs.headD Ch.default) s).stopped = false := by
-          cases hh : (exec K rc bt top below (cs.headD Ch.default) s).stopped <;> simp_all
-        simp only [hs', Bool.false_eq_true, if_false]
-        have hrc' := hrc.mono (top' := (exec K rc bt top below (cs.headD Ch.default) s).top)
-          (below' := below) (fun x hx => bound_mono h1.grow hx) (fun _ hp => hp) (fun _ hp => hp)
-        have h2 := sim_walkList ss K hK P Q rc G bt _ _ below cs.tail hbt hrc' (h1.inv hs')
-        exact Sim.prepend _ (Sim.seq h1 h2 (step_walkList ss _).rep) hq'
+      have hq' : ∀ st' : St, ∀ x ∈ K rc bt top below (cs.headD Ch.default).reqs,
+          (st'.reported x ∨ P x) ∧ (bound top below x = false ∨ Q x) :=
+        fun _ x hx => ⟨Or.inr (hq x hx).1, (hq x hx).2⟩
+      have h1' := Sim.prepend _ h1 (hq' _)
+      simp only [walkList, execList]
+      by_cases ha : (cs.headD Ch.default).ab = 0
+      · simp only [ha, ne_eq, not_true_eq_false, if_false]
+        by_cases hs : (exec K rc bt top below (cs.headD Ch.default) s).stopped = true
+        · simp only [hs, if_true]
+          exact Sim.cut h1' (step_walkList ss _).rep rfl (fun _ hx => hx) rfl
+        · have hs' : (exec K rc bt top below (cs.headD Ch.default) s).stopped = false := by
+            cases hh : (exec K rc bt top below (cs.headD Ch.default) s).stopped <;> simp_all
+          simp only [hs', Bool.false_eq_true, if_false]
+          have hrc' := hrc.mono (top' := (exec K rc bt top below (cs.headD Ch.default) s).top)
+            (below' := below) (fun x hx => bound_mono h1.grow hx) (fun _ hp => hp)
+          have h2 := sim_walkList ss K hK P Q rc G bt _ _ below cs.tail hbt hrc' (h1.inv hs')
+          exact Sim.prepend _ (Sim.seq h1 h2 (step_walkList ss _).rep) (hq' _)
+      · simp only [ha, ne_eq, not_false_eq_true, if_true]
+        exact Sim.cut h1' (step_walkList ss _).rep rfl
+          (fun x hx => List.mem_of_mem_take hx) rfl
 end
 
 /-- re-entries are accounted for, however deeply they nest -/
@@ -885,16 +795,16 @@ theorem kok_reenter : ∀ d, KOK (reenter d)
           | nil => rw [hG] at hd; simp [RcOK] at hd
           | cons g G' =>
             rw [hG] at hd
-            obtain ⟨⟨hiB, hrep, hself⟩, _⟩ := hd
+            obtain ⟨⟨hiB, hrep⟩, _⟩ := hd
             obtain ⟨hiE, hit2⟩ := loop_entry g atoms hiB
             have hup : ∀ y, bound top below y = true →
                 bound (bindAtoms ["loop"] (top :: below) atoms).1 (top :: below) y = true :=
               fun y hy => (bound_cons_iff _ _ _ _).2 (Or.inr hy)
             have hrc' : RcOK ((atoms, body) :: rest) (g :: G')
-                (bindAtoms ["loop"] (top :: below) atoms).1 (top :: below) P Q := by
+                (bindAtoms ["loop"] (top :: below) atoms).1 (top :: below) P := by
               have := hrc.drop r.n
               rw [heq, hG] at this
-              exact this.mono hup (fun _ hp => hp) (fun _ hq => hq)
+              exact this.mono hup (fun _ hp => hp)
             have hsim := sim_walkList body (reenter d) (kok_reenter d) P Q _ _ bt _ _ _ r.sub0
               hbt hrc' hiE
             rw [List.mem_append] at hx
@@ -903,15 +813,7 @@ theorem kok_reenter : ∀ d, KOK (reenter d)
               have hE : Step (atoms.foldl trackAtom g.sB) (walkList (g.sE atoms) body) :=
                 Step.trans (Step.trans hsC (step_assign _ "loop")) (step_walkList body _)
               exact ⟨hrep x (hE.rep x (hit2 x hx).1), Or.inl (hit2 x hx).2⟩
-            · refine ⟨?_, ?_⟩
-              · rcases hsim.reads x hx with hr | hr | hr
-                · exact hrep x hr
-                · exact hbt.qp x (hself x hr)
-                · exact hr
-              · rcases hsim.unb x hx with hr | hr | hr
-                · exact Or.inl (unbound_of_push hr)
-                · exact Or.inr (hself x hr)
-                · exact Or.inr hr
+            · exact ⟨(hsim.reads x hx).elim (hrep x) id, (hsim.unb x hx).imp unbound_of_push id⟩
         · cases hx
       · -- a block of the template
         split at hx
@@ -923,19 +825,14 @@ theorem kok_reenter : ∀ d, KOK (reenter d)
             hbt (by simp [RcOK]) hin
           have hflat : (walkList St.init body).nested = none := (step_walkList body _).nn rfl
           refine ⟨?_, ?_⟩
-          · rcases hsim.reads x hx with hr | hr | hr
+          · rcases hsim.reads x hx with hr | hr
             · rw [reported_none hflat] at hr
               exact hbt.qp x (hbt.free body hmem x hr)
-            · exact hbt.qp x (hbt.self body hmem x hr)
             · exact hr
-          · rcases hsim.unb x hx with hr | hr | hr
-            · exact Or.inl (by rw [bound_push] at hr; exact hr)
-            · exact Or.inr (hbt.self body hmem x hr)
-            · exact Or.inr hr
+          · exact (hsim.unb x hx).imp (fun hr => by rw [bound_push] at hr; exact hr) id
         · cases hx
 
-/-! ### the blocks of a template: their free names are reported, their exceptions are
-exceptions of the template -/
+/-! ### the blocks of a template: their free names are reported -/
 
 mutual
 theorem blocks_reported : (s : Stmt) → ∀ (st : St), ∀ body ∈ blockBodies s,
@@ -986,6 +883,7 @@ theorem blocks_reported : (s : Stmt) → ∀ (st : St), ∀ body ∈ blockBodies
       intro x hx
       simp only [blockBodies] at hb
       simp only [walk]
+      rw [assign_reported]
       exact blocksL_reported body _ b hb x hx
   | .callBlock callee cargs args defaults body, st, b, hb => by
       intro x hx
@@ -1002,6 +900,10 @@ theorem blocks_reported : (s : Stmt) → ∀ (st : St), ∀ body ∈ blockBodies
       rcases hb with rfl | hb
       · exact block_free_reported st b x hx
       · exact blocksL_reported body _ b hb x hx
+  | .include _, _, _, hb => by simp [blockBodies] at hb
+  | .extends _, _, _, hb => by simp [blockBodies] at hb
+  | .importAs _ _, _, _, hb => by simp [blockBodies] at hb
+  | .fromImport _ _, _, _, hb => by simp [blockBodies] at hb
 theorem blocksL_reported : (ss : List Stmt) → ∀ (st : St), ∀ body ∈ blockBodiesL ss,
     ∀ x ∈ (walkList St.init body).out, (walkList st ss).reported x
   | [], _, _, hb => by simp [blockBodiesL] at hb
@@ -1014,128 +916,19 @@ theorem blocksL_reported : (ss : List Stmt) → ∀ (st : St), ∀ body ∈ bloc
       · exact blocksL_reported ss _ b hb x hx
 end
 
-mutual
-theorem blocks_selfRefs : (s : Stmt) → ∀ body ∈ blockBodies s, ∀ x ∈ selfRefsL body, x ∈ selfRefs s
-  | .emit _, _, hb => by simp [blockBodies] at hb
-  | .raw, _, hb => by simp [blockBodies] at hb
-  | .forLoop _ _ _ _ body els, b, hb => by
-      intro x hx
-      simp only [blockBodies, List.mem_append] at hb
-      simp only [selfRefs, List.mem_append]
-      exact hb.imp (fun hb => blocksL_selfRefs body b hb x hx) (fun hb => blocksL_selfRefs els b hb x hx)
-  | .ifCond _ t f, b, hb => by
-      intro x hx
-      simp only [blockBodies, List.mem_append] at hb
-      simp only [selfRefs, List.mem_append]
-      exact hb.imp (fun hb => blocksL_selfRefs t b hb x hx) (fun hb => blocksL_selfRefs f b hb x hx)
-  | .withBlock _ body, b, hb => by
-      intro x hx
-      simp only [blockBodies] at hb
-      simp only [selfRefs]
-      exact blocksL_selfRefs body b hb x hx
-  | .set _ _, _, hb => by simp [blockBodies] at hb
-  | .setBlock _ _ body, b, hb => by
-      intro x hx
-      simp only [blockBodies] at hb
-      simp only [selfRefs]
-      exact blocksL_selfRefs body b hb x hx
-  | .autoEscape _ body, b, hb => by
-      intro x hx
-      simp only [blockBodies] at hb
-      simp only [selfRefs]
-      exact blocksL_selfRefs body b hb x hx
-  | .filterBlock _ body, b, hb => by
-      intro x hx
-      simp only [blockBodies] at hb
-      simp only [selfRefs]
-      exact blocksL_selfRefs body b hb x hx
-  | .macro _ _ _ body, b, hb => by
-      intro x hx
-      simp only [blockBodies] at hb
-      simp only [selfRefs, List.mem_append]
-      exact Or.inr (blocksL_selfRefs body b hb x hx)
-  | .callBlock _ _ _ _ body, b, hb => by
-      intro x hx
-      simp only [blockBodies] at hb
-      simp only [selfRefs]
-      exact blocksL_selfRefs body b hb x hx
-  | .doStmt _ _, _, hb => by simp [blockBodies] at hb
-  | .brk, _, hb => by simp [blockBodies] at hb
-  | .cont, _, hb => by simp [blockBodies] at hb
-  | .block _ body, b, hb => by
-      intro x hx
-      simp only [blockBodies, List.mem_cons] at hb
-      simp only [selfRefs]
-      rcases hb with rfl | hb
-      · exact hx
-      · exact blocksL_selfRefs body b hb x hx
-theorem blocksL_selfRefs : (ss : List Stmt) → ∀ body ∈ blockBodiesL ss,
-    ∀ x ∈ selfRefsL body, x ∈ selfRefsL ss
-  | [], _, hb => by simp [blockBodiesL] at hb
-  | s :: ss, b, hb => by
-      intro x hx
-      simp only [blockBodiesL, List.mem_append] at hb
-      simp only [selfRefsL, List.mem_append]
-      exact hb.imp (fun hb => blocks_selfRefs s b hb x hx) (fun hb => blocksL_selfRefs ss b hb x hx)
-end
-
-/-- the whole template, either mode of the analysis: every look-up of every execution is
-reported or is the own name of a self-referential macro -/
+/-- the whole template, either mode of the analysis, every execution (failing ones included):
+every look-up is reported -/
 theorem template_sound (t : List Stmt) (st0 : St) (h0 : st0.assigned = [[]])
     (cs : List Ch) (d : Nat) (x : String) (hx : x ∈ reads t cs d) :
-    (walkList st0 t).reported x ∨ x ∈ selfRefsL t := by
-  let Q : String → Prop := fun y =>
-    ∃ body ∈ blockBodiesL t, y ∈ (walkList St.init body).out ∨ y ∈ selfRefsL body
-  have hctx : Ctx (blockBodiesL t) Q Q :=
-    ⟨fun _ h => h, fun body hb y hy => ⟨body, hb, Or.inl hy⟩, fun body hb y hy => ⟨body, hb, Or.inr hy⟩⟩
+    (walkList st0 t).reported x := by
+  let Q : String → Prop := fun y => ∃ body ∈ blockBodiesL t, y ∈ (walkList St.init body).out
+  have hctx : Ctx (blockBodiesL t) Q Q := ⟨fun _ h => h, fun body hb y hy => ⟨body, hb, hy⟩⟩
   have hinit : Inv [] [] st0 := by
     intro y hy; simp [St.isAssigned, h0] at hy
   have hsim := sim_walkList t (reenter d) (kok_reenter d) Q Q [] [] (blockBodiesL t) st0 [] [] cs
     hctx (by simp [RcOK]) hinit
-  rcases hsim.reads x hx with h | h | ⟨body, hb, h | h⟩
-  · exact Or.inl h
-  · exact Or.inr h
-  · exact Or.inl (blocksL_reported t st0 body hb x h)
-  · exact Or.inr (blocksL_selfRefs t body hb x h)
-
-/-! ### the macro-free fragment has no exceptions -/
-
-mutual
-theorem noMacro_selfRefs : (s : Stmt) → noMacro s = true → selfRefs s = []
-  | .emit _, _ => rfl
-  | .raw, _ => rfl
-  | .forLoop _ _ _ _ body els, h => by
-      simp only [noMacro, Bool.and_eq_true] at h
-      simp [selfRefs, noMacroL_selfRefsL body h.1, noMacroL_selfRefsL els h.2]
-  | .ifCond _ t f, h => by
-      simp only [noMacro, Bool.and_eq_true] at h
-      simp [selfRefs, noMacroL_selfRefsL t h.1, noMacroL_selfRefsL f h.2]
-  | .withBlock _ body, h => by
-      simp only [noMacro] at h
-      simp [selfRefs, noMacroL_selfRefsL body h]
-  | .set _ _, _ => rfl
-  | .setBlock _ _ body, h => by
-      simp only [noMacro] at h
-      simp [selfRefs, noMacroL_selfRefsL body h]
-  | .autoEscape _ body, h => by
-      simp only [noMacro] at h
-      simp [selfRefs, noMacroL_selfRefsL body h]
-  | .filterBlock _ body, h => by
-      simp only [noMacro] at h
-      simp [selfRefs, noMacroL_selfRefsL body h]
-  | .macro _ _ _ _, h => by simp [noMacro] at h
-  | .callBlock _ _ _ _ _, h => by simp [noMacro] at h
-  | .doStmt _ _, _ => rfl
-  | .brk, _ => rfl
-  | .cont, _ => rfl
-  | .block _ body, h => by
-      simp only [noMacro] at h
-      simp [selfRefs, noMacroL_selfRefsL body h]
-theorem noMacroL_selfRefsL : (ss : List Stmt) → noMacroL ss = true → selfRefsL ss = []
-  | [], _ => rfl
-  | s :: ss, h => by
-      simp only [noMacroL, Bool.and_eq_true] at h
-      simp [selfRefsL, noMacro_selfRefs s h.1, noMacroL_selfRefsL ss h.2]
-end
+  rcases hsim.reads x hx with h | ⟨body, hb, h⟩
+  · exact h
+  · exact blocksL_reported t st0 body hb x h
 
 end MJ.Meta
